@@ -199,6 +199,12 @@ def nguard(g):
         while t[0] == "un" and t[1] == "Not":
             t = t[2]
             v = not v
+        # a slice pattern `[]` / `[first, ..]` compares the slice's length (its pointer metadata) with 0: the same predicate as
+        # `is_empty()`, spelled by the pattern lowering
+        if t[0] == "bin" and t[1] in ("Eq", "Ne") and len(t) == 4:
+            for a_, b_ in ((t[2], t[3]), (t[3], t[2])):
+                if b_ == ("int", 0) and a_[0] == "un" and a_[1] == "PtrMetadata":
+                    return ("bool", ("call", "slice::is_empty", (a_[2],), None), v if t[1] == "Eq" else (not v))
         return ("bool", t, v)
     return (g[0], t) + tuple(g[2:])
 
